@@ -25,15 +25,15 @@ var commonAssumptions = []string{
 
 var coreRealStub = map[string]string{
 	"server/server.go (proxy main)":                 "real (instrumented copy of the working tree: yields + seams)",
-	"agent/agent.go (agent main) and agent/*":        "real (instrumented copy of the working tree)",
+	"agent/agent.go (agent main) and agent/*":       "real (instrumented copy of the working tree)",
 	"net/http client/server, httputil.ReverseProxy": "real, unmodified",
-	"gorilla/websocket, groupcache/lru, cookiejar":   "real, unmodified",
-	"TCP/IP sockets":                                 "SimNet (in-memory, driver-scheduled)",
-	"time":                                           "synctest bubble clock",
-	"flags, os.Exit/log.Fatal, signals":              "sim stand-ins",
-	"Google credentials / GCE metadata":              "stub (plain client over SimNet, not on GCE)",
-	"Cloud Monitoring":                               "disabled (no project configured)",
-	"clients, backends":                              "harness peers",
+	"gorilla/websocket, groupcache/lru, cookiejar":  "real, unmodified",
+	"TCP/IP sockets":                    "SimNet (in-memory, driver-scheduled)",
+	"time":                              "synctest bubble clock",
+	"flags, os.Exit/log.Fatal, signals": "sim stand-ins",
+	"Google credentials / GCE metadata": "stub (plain client over SimNet, not on GCE)",
+	"Cloud Monitoring":                  "disabled (no project configured)",
+	"clients, backends":                 "harness peers",
 }
 
 var checks = map[string]*Check{
@@ -156,5 +156,33 @@ var checks = map[string]*Check{
 		Rule:        "(real-proxy leg) 2..8 healthy concurrent requests next to 1..5 sabotaged ones: backend reset before headers / mid body, close mid chunk, garbage instead of HTTP, malformed header or chunk, hang then close, malformed shim input (open/data/poll/close) when the shim is on; then a window with every backend dial refused (client must get 502); then a probe. (fake-proxy leg) pending lists with 5xx / garbled JSON / HTML / > 1 MB replies between good ones, fetches rejected, truncated, garbage, without or with a bad start time, reset; uploads rejected or reset - each for chosen request IDs only; healthy IDs and a later probe must be served. Crash monitor and race-detector legs.",
 		Assumptions: commonAssumptions,
 		RealStub:    coreRealStub,
+	},
+	"C15": {
+		Legs:        []Leg{{World: "C15", Weight: 3}, {World: "C15", Race: true, Weight: 1}},
+		Probes:      []string{"both_directions_at_once", "concurrent_connections", "stream_larger_than_64k", "passthrough_request"},
+		Rule:        "TCP clients -> real tcp-bridge-frontend main() -> websocket over SimNet through the real h2c-wrapped tcp-bridge-backend main() -> harness TCP server. 1..4 (thorough ..32) connections, per direction 0..6 writes of 0 B..70 KB (all 256 byte values), reader buffers 1 B..100 KB, both directions at once, SimNet buffers 1..64 KiB and segmentation up to 70%; plus plain HTTP POSTs to the bridge backend for the pass-through clause.",
+		Assumptions: commonAssumptions,
+		RealStub: map[string]string{
+			"utils/tcpbridge/tcp-bridge-frontend (main), tcp-bridge-backend (main), connection": "real (instrumented copy of the working tree)",
+			"gorilla/websocket, x/net/http2/h2c, net/http, httputil.ReverseProxy":               "real, unmodified",
+			"TCP/IP sockets":           "SimNet (in-memory, driver-scheduled)",
+			"time":                     "synctest bubble clock",
+			"flags, os.Exit/log.Fatal": "sim stand-ins",
+			"TCP clients, TCP server behind the bridge": "harness peers",
+		},
+	},
+	"C16": {
+		Legs:        []Leg{{World: "C16", Weight: 1}},
+		Probes:      []string{"one_side_closed_first", "several_connections", "graceful_close_complete_data"},
+		Rule:        "Same world as C15; per connection the client, the server or both close after their writes with a delay of 0..5 s relative to data in flight in either direction. Liveness in simulated time: the surviving peer must see end-of-stream within 60 s after having received everything sent before the close; SimNet's connection table is the counter for leaked bridge connections.",
+		Assumptions: commonAssumptions,
+		RealStub: map[string]string{
+			"utils/tcpbridge/tcp-bridge-frontend (main), tcp-bridge-backend (main), connection": "real (instrumented copy of the working tree)",
+			"gorilla/websocket, x/net/http2/h2c, net/http, httputil.ReverseProxy":               "real, unmodified",
+			"TCP/IP sockets":           "SimNet (in-memory, driver-scheduled)",
+			"time":                     "synctest bubble clock",
+			"flags, os.Exit/log.Fatal": "sim stand-ins",
+			"TCP clients, TCP server behind the bridge": "harness peers",
+		},
 	},
 }
